@@ -17,16 +17,30 @@ IN_LAYOUT = [("is_out", 1), ("is_ping", 1), ("tok_rfr", 1), ("rx_valid", 1), ("r
 
 def mk(mps, buf, big):
     def build():
+        from amaranth import Elaboratable, Module, Mux, Signal
         from luna.gateware.usb.usb2.endpoints.stream import USBStreamOutEndpoint
-        d = USBStreamOutEndpoint(endpoint_number=EP, max_packet_size=mps, buffer_size=buf)
+
+        class Wrapper(Elaboratable):
+            """exposes the output stream masked by stream.valid: payload, first and last mean something only while valid
+            is high, so don't-care values (stale FIFO read data) never count as a difference"""
+            def __init__(self):
+                self.ep = USBStreamOutEndpoint(endpoint_number=EP, max_packet_size=mps, buffer_size=buf)
+                self.first = Signal(); self.last = Signal(); self.payload = Signal(8)
+            def elaborate(self, platform):
+                m = Module(); m.submodules.ep = ep = self.ep
+                v = ep.stream.valid
+                m.d.comb += [self.first.eq(ep.stream.first & v), self.last.eq(ep.stream.last & v),
+                             self.payload.eq(Mux(v, ep.stream.payload, 0))]
+                return m
+        w = Wrapper(); d = w.ep
         i = d.interface; tk = i.tokenizer
-        return d, [("is_out", tk.is_out), ("is_ping", tk.is_ping), ("tok_rfr", tk.ready_for_response),
+        return w, [("is_out", tk.is_out), ("is_ping", tk.is_ping), ("tok_rfr", tk.ready_for_response),
                    ("rx_valid", i.rx.valid), ("rx_next", i.rx.next), ("rx_complete", i.rx_complete),
                    ("rx_invalid", i.rx_invalid), ("rx_rfr", i.rx_ready_for_response), ("ready", d.stream.ready),
                    ("rx_pid_toggle", i.rx_pid_toggle), ("endpoint", tk.endpoint),
                    ("clr", i.clear_endpoint_halt_in.as_value()), ("rx_payload", i.rx.payload)], \
                   [("ack", i.handshakes_out.ack), ("nak", i.handshakes_out.nak), ("valid", d.stream.valid),
-                   ("first", d.stream.first), ("last", d.stream.last), ("payload", d.stream.payload)]
+                   ("first", w.first), ("last", w.last), ("payload", w.payload)]
     t = Target(f"outep_m{mps}_b{buf}", build)
     t.params = dict(mps=mps, buf=buf); t.big = big
     return t
@@ -34,8 +48,8 @@ def mk(mps, buf, big):
 
 # (max_packet_size, buffer_size); LUNA's default buffer is 2 * max_packet_size - 1
 SMALL_QUICK = [(1, 1)]
-SMALL_THOROUGH = [(1, 1), (1, 2), (2, 2), (2, 3)]
-BIG_QUICK = [(2, 3), (4, 7), (8, 15), (64, 127)]
+SMALL_THOROUGH = [(1, 1), (1, 2)]
+BIG_QUICK = [(2, 3), (4, 7), (64, 127)]
 BIG_THOROUGH = [(2, 2), (2, 3), (3, 5), (4, 7), (4, 9), (8, 15), (8, 16), (64, 127), (64, 100), (512, 1023)]
 
 
@@ -265,7 +279,7 @@ def traces(target, rng, tier):
             out.append(overflow_session(rng, mps, buf, orc))
         out.append(noise(rng, 150))
     else:
-        budget = 1200 if tier == "quick" else 15000
+        budget = 900 if tier == "quick" else 6000
         total = 0; k = 0
         while total < budget:
             t = overflow_session(rng, mps, buf, orc) if k % 3 == 0 else session(rng, mps, buf, orc, rng.randint(3, 7))
@@ -278,29 +292,148 @@ def traces(target, rng, tier):
 OTHER_EP = (EP + 1) % 16
 
 
+def alphabet(both):
+    """input words of the lock-step obligations: for each token kind {OUT token for EP (, OUT token for another endpoint)}
+    x rx_pid_toggle {0,1} x stream.ready {0,1}: receive side {idle, idle + rx_complete, idle + rx_invalid, rx.valid,
+    rx.valid + rx.next} and idle + rx_ready_for_response; plus PING for EP with tokenizer.ready_for_response and
+    ClearFeature(HALT) for EP (each x stream.ready); payload byte 0xA5"""
+    ws = []
+    base = dict(is_out=1, is_ping=0, tok_rfr=0, rx_valid=0, rx_next=0, rx_complete=0, rx_invalid=0, rx_rfr=0, ready=0,
+                rx_pid_toggle=0, endpoint=EP, clr=0, rx_payload=0xA5)
+    for ep in ((EP, OTHER_EP) if both else (EP,)):
+        for tog in (0, 1):
+            for rdy in (0, 1):
+                for (v, n, c, i) in [(0, 0, 0, 0), (0, 0, 1, 0), (0, 0, 0, 1), (1, 0, 0, 0), (1, 1, 0, 0)]:
+                    ws.append(pack_in(dict(base, endpoint=ep, rx_pid_toggle=tog, ready=rdy, rx_valid=v, rx_next=n,
+                                           rx_complete=c, rx_invalid=i)))
+                ws.append(pack_in(dict(base, endpoint=ep, rx_pid_toggle=tog, ready=rdy, rx_rfr=1)))
+    for rdy in (0, 1):
+        ws.append(pack_in(dict(base, is_out=0, is_ping=1, tok_rfr=1, ready=rdy)))
+        ws.append(pack_in(dict(base, clr=clr_word(1, 0, EP), ready=rdy)))
+    return sorted(set(ws))
+
+
+# lock-step configurations: (max_packet_size, buffer_size, both token kinds in the alphabet?)
+def lock_cfg(tier):
+    return {(1, 1): False} if tier == "quick" else {(1, 1): True, (1, 2): False}
+
+
 def obligations(targets, tier):
-    DEV = os.environ.get("C13_DEV", "")
+    cfg = lock_cfg(tier)
     obs = []
     for t in targets:
         mps, buf = t.params["mps"], t.params["buf"]
+        if not t.big:
+            both = cfg[(mps, buf)]
+            al = alphabet(both)
+            obs.append(tie_explicit.rlock_alpha(
+                f"ob_{t.name}", t,
+                St="so_state", mstep=f"so_mstep {mps} {buf} {EP}", enc=f"so_enc {mps} {buf}", dec=f"so_dec {mps} {buf}",
+                wf=f"so_wf {mps} {buf}", dec_enc=f"so_dec_enc {mps} {buf}", wf_step=f"so_wf_step {mps} {buf} {EP}",
+                m0=f"so_init {buf}", wf_m0="apply so_wf_init.", env=f"so_menv {mps} {EP}",
+                alphabet="[" + "; ".join(str(w) for w in al) + "]", fuel=100000,
+                describe=f"USBStreamOutEndpoint(max_packet_size={mps}, buffer_size={buf}) == endpoint model (boundary detector + "
+                         f"toggle/overflow/transfer registers + FIFO) in lock step on all traces over {len(al)} input words "
+                         f"(OUT token for this{' / another' if both else ''} endpoint x data toggle x stream.ready x receive side "
+                         f"idle / +rx_complete / +rx_invalid / rx.valid / +rx.next / rx_ready_for_response; PING; ClearFeature(HALT); "
+                         f"payload 0xA5) that keep the environment assumption"))
         obs.append(tie.corr(f"corr_{t.name}", t, mstep=f"so_mstep {mps} {buf} {EP}", m0=f"so_init {buf}",
                             norm="so_normN",
                             describe=f"endpoint model vs simulator at max_packet_size={mps}, buffer_size={buf}: host sessions "
                                      f"(OUT transactions of all sizes incl. zero-length, bad CRC, retransmissions with repeated "
                                      f"toggle, lost ACKs, PING, other endpoints, ClearFeature(HALT), response delays 1/2/3/10 cycles, "
                                      f"consumer back-pressure up to overflow), full-width payloads; stream compared while valid"))
+        if True:
+            obs.append(tie.cmon(f"spec_{t.name}", t, mon=f"(ss_mon {mps} {buf} {EP})", m0="ss_mon0",
+                                describe=f"the packet-level SPECIFICATION machine (ss_next/ss_outf) run as an oracle over simulator "
+                                         f"traces of the real module at max_packet_size={mps}, buffer_size={buf}: in every cycle that "
+                                         f"keeps the environment assumption, ack, nak, stream.valid and (while valid) "
+                                         f"payload/first/last must be those of the specification"))
     return obs
 
 
 def tie_theorems(targets, tier):
-    return ""
+    s = ""
+    for t in targets:
+        if t.big: continue
+        mps, buf = t.params["mps"], t.params["buf"]; ob = f"ob_{t.name}"
+        s += f"""
+Theorem C13_{t.name} : forall tr,
+  Forall (fun w => In w {ob}.alpha) tr ->
+  ss_env_ok {mps} {buf} ss_init (map (so_in_of {EP}) tr) = true ->
+  map (fun w => so_norm (so_out_of w)) (run {t.modname}.step {t.modname}.init tr)
+  = ss_run {mps} {buf} ss_init (map (so_in_of {EP}) tr).
+Proof.
+  intros tr H HE.
+  rewrite ({ob}_T.tie tr H (so_menv_ok {mps} {buf} {EP} ltac:(lia) tr HE)).
+  apply so_packed_refines; [lia | exact HE].
+Qed.
+"""
+    return s
 
 
 def tie_theorem_names(targets, tier):
-    return []
+    return [f"C13_{t.name}" for t in targets if not t.big]
 
 
-ASSUMPTIONS = []
-LEVEL_TEXT = "in progress"
-LEVEL_NOTE = "in progress"
-TECHNIQUE = "in progress"
+ASSUMPTIONS = [
+    "environment, per cycle on EndpointInterface signals (ss_env in Model/StreamOut.v): E0 rx.payload is a byte; E1 while a packet "
+    "is being received and until its outcome has been acted upon (two cycles after rx.valid fell) the tokenizer fields that select "
+    "the endpoint and the received data PID (rx_pid_toggle) do not change, and while a packet is open no response is requested "
+    "(rx_ready_for_response low) and no ClearFeature(HALT) arrives -- the token detector / data receiver / control endpoint only "
+    "change these between transactions; E2 rx.valid stays low for the two cycles after a packet ended (inter-packet gap; "
+    "USBDataPacketReceiver raises stream.valid only after PID + two bytes of the next packet); E3 a packet addressed to the endpoint "
+    "ends with exactly one of rx_complete / rx_invalid, seen no later than the cycle in which rx.valid falls (C02); E4 a packet "
+    "addressed to the endpoint has at most max_packet_size payload bytes",
+    "no assumption on WHEN rx_ready_for_response arrives after the packet (1 cycle at high speed, 2 at 12 MHz full speed, 10 / 80 at "
+    "60 MHz full / low speed): the specification answers from the state it keeps until the next packet begins. That the strobe "
+    "follows a CRC-valid packet exactly once (C02) is what makes 'the packet being answered' the most recent one; the theorems about "
+    "handshakes are stated per response cycle and do not need it",
+    "no assumption on packet sizes 0..max_packet_size, corruption, retransmissions, toggle values (DATA2/MDATA never match and are "
+    "answered like a repeated toggle, as in the gateware), PING at any time, the consumer's ready pattern or the buffer size",
+    "reading of the property: 'newly accepted' = CRC-valid, addressed, expected toggle, no byte lost; a transfer ends with a packet "
+    "shorter than max_packet_size, including a zero-length packet; `first` marks the first byte accepted after the end of a transfer "
+    "(or after reset), `last` the final byte of a packet shorter than max_packet_size. A byte is lost iff no buffer slot is free in "
+    "the cycle it reaches the buffer (one byte behind the wire); slots in use = undelivered entries + stored bytes of the open "
+    "packet + 1 if an entry was delivered in the previous cycle. PING: ACK iff max_packet_size slots are free",
+    "the output stream is compared while stream.valid is high (payload/first/last are don't-care otherwise)",
+    "lock-step tie configurations (max_packet_size, buffer_size): (1,1) with an OUT-token-for-this-endpoint alphabet (quick); (1,1) and "
+    "(1,2) (thorough; (1,1) also with tokens for another endpoint); explicit input alphabets (see obligation_list); larger "
+    "configurations exceed the reachability budget (29733 product states at (1,2) with both token kinds) and are covered by "
+    "correspondence and specification-oracle runs: (2,3) (4,7) (64,127) quick / up to (512,1023) thorough with full-width "
+    "random payloads (2*mps-1 is LUNA's default buffer size); endpoint_number = 1",
+    "DEFECTS: the unchanged tree violates the property in three ways (findings/C13-*.json, confirmed on Amaranth's simulator): "
+    "(a) an overflowed, discarded packet is ACKed (and the toggle advanced) when rx_ready_for_response arrives 3 or more cycles "
+    "after the packet -- every full/low-speed device on a 60 MHz PHY; (b) transfer_active follows discarded (corrupted / NAKed) "
+    "packets, so the retransmission's bytes carry a wrong `first`; (c) a zero-length packet does not end the transfer. Model and "
+    "specification describe the repaired behaviour (findings/C13-ack-after-discard-and-first-marking.diff); ./check C13 exits 0 "
+    "only with that patch applied",
+]
+LEVEL_TEXT = ("Machine-checked proof. (1) For every max_packet_size >= 1, every buffer size, every endpoint number and every input "
+              "history of any length that keeps the environment assumption, the code-shaped model of USBStreamOutEndpoint "
+              "(boundary-detector FSM model of C28 + expected toggle / overflow / rx_cnt (with its real width) / transfer_active registers "
+              "and the ACK/NAK equations + pointer/memory FIFO model of C18) shows in every cycle exactly ack, nak, stream.valid and, "
+              "while valid, payload/first/last of the packet-level specification machine [C13_model_refines_spec: simulation relation "
+              "through the abstract transactional queue of C18, induction over the history]. (2) For the specification, hence for the "
+              "model: entries delivered ++ entries still queued = concatenation of the framed payloads of the packets accepted as new "
+              "data (CRC-valid, addressed, expected toggle, no byte lost), each exactly once, in order, whole [C13_stream_is_accepted_"
+              "payloads]; a response to a packet with the expected toggle is ACK iff no byte was lost -- exactly the commit condition -- "
+              "and NAK otherwise, a repeated toggle is ACKed and stores nothing [C13_response, C13_handshakes]; the toggle advances "
+              "exactly with an ACK for new data [C13_toggle]; `first`/`last` are those of the framing (first iff the packet starts a "
+              "transfer, last iff it is shorter than max_packet_size). (3) For the small tie configurations the netlist regenerated "
+              "from /repo is proved equal to the model on all traces over an explicit input alphabet that keep the assumption "
+              "(certified product reachability), giving C13_outep_m<k>_b<n>: netlist handshakes and stream = specification. "
+              "(4) Simulator correspondence and the specification run as an oracle at realistic sizes.")
+LEVEL_NOTE = ("Trusted: Coq kernel + vm_compute, Amaranth elaboration to NIR, nir2coq.py/Netlist.v (validated each run against Amaranth's "
+              "simulator). Partial in one respect: the link 'the ACK answers the packet whose payload was committed' is proved per "
+              "response cycle on the specification state (C13_response: ACK <-> nothing lost <-> commit condition), not as a "
+              "trace-level pairing of ACK events with packets, which would need the additional environment fact that "
+              "rx_ready_for_response follows each CRC-valid packet exactly once before the next packet. The netlist=model theorems are "
+              "per configuration (small sizes, endpoint 1) over finite input alphabets (one payload byte value); other sizes and "
+              "full-width data rest on the parametric theorem plus correspondence. The FIFO model imported from C18 gates commit by "
+              "~discard; the endpoint never asserts both (assumption E3). The unchanged tree FAILS this check (three genuine defects, "
+              "see assumptions); it passes with findings/C13-ack-after-discard-and-first-marking.diff.")
+TECHNIQUE = ("Rocq proof: simulation relation between the code-shaped composite model and a packet-level specification machine, reusing "
+             "the C28 boundary-detector model and the C18 FIFO refinement theorem (all sizes, unbounded histories) + certified "
+             "product-reachability (lock-step, explicit alphabet, environment-constrained) against the netlist regenerated from source + "
+             "simulator correspondence and specification oracle at realistic sizes with a transaction-level host generator")
